@@ -103,14 +103,16 @@ Theorem c05_rto_mode_single : forall (CC : Type) (cci : cc_iface CC) s s',
    (timer_expired (v_t_retransmit s) (v_now s) = true /\ exists p, v_out s' = p :: v_out s)).
 Proof. exact (@rto_mode_single). Qed.
 
-(* (c) the counter is reset by incoming messages only if they acknowledged something new *)
+(* (c) the counter is reset by incoming messages only if they acknowledged something new
+   (whether or not the receive loop ended on the closed channel: repair of D17) *)
 Theorem c05_rto_mode_exit_ack : forall (CC : Type) (cci : cc_iface CC) s s',
   step_st (process_all_incoming_messages cci s) = Some s' ->
   v_rto_retransmissions s' = v_rto_retransmissions s \/
   (v_rto_retransmissions s' = 0 /\
-   exists s1 r, recv_loop cci (v_inbox s ++ [ {| m_hdr := outgoing_header s; m_payload := [] |} ]) s
-                          on_ack_result_default = SOk s1 (r, false) /\
-                (0 < ar_acked_segments r \/ 0 < ar_newly_sacked_segments r)).
+   exists s1 r early,
+     recv_loop cci (v_inbox s ++ [ {| m_hdr := outgoing_header s; m_payload := [] |} ]) s
+               on_ack_result_default = SOk s1 (r, early) /\
+     (0 < ar_acked_segments r \/ 0 < ar_newly_sacked_segments r)).
 Proof. exact (@rto_mode_exit_ack). Qed.
 
 (* (c) boundary B6: ... or by popping an expired MTU probe *)
